@@ -105,7 +105,7 @@ def semantic_case(idx, payload):
     if not classes:
         return res
     c = rng.choice(classes)
-    kind = rng.choice(["ctor-shaped-method", "ctor-shaped-method", "misspelled-ctor", "operator-shape", "unknown-dunder"])
+    kind = rng.choice(["ctor-shaped-method", "ctor-shaped-method", "misspelled-ctor", "operator-shape", "unknown-dunder", "static-const"])
     n_ctor = rng.choice([0, 1, 2])
     for _ in range(n_ctor):
         c.members.insert(rng.randint(0, len(c.members)), gen.Member('ctor', name=c.name, args=g.gen_args((), n=rng.randint(0, 2))))
@@ -120,15 +120,32 @@ def semantic_case(idx, payload):
         shape = rng.choice(["two-args", "unary-star", "foreign-arg"])
         args = {"two-args": [gen.Arg(cls_ty, "a"), gen.Arg(cls_ty, "b")], "unary-star": [], "foreign-arg": [gen.Arg(other, "a")]}[shape]
         c.members.insert(rng.randint(0, len(c.members)), gen.Member('op', ret=gen.Ret(cls_ty), sym='*', args=args))
+    elif kind == "static-const":
+        # a `const` after a static member function: no rule of the dialect has a place for it
+        c.members.insert(rng.randint(0, len(c.members)),
+                         gen.Member('static', tmpl=(g.gen_tmpl() if rng.random() < 0.3 else None), ret=gen.Ret(gen.Ty([], "double", None, False, '', True)),
+                                    name="StaticK9", args=g.gen_args((), n=rng.randint(0, 2))))
     else:
         c.tmpl = None
         c.members.insert(rng.randint(0, len(c.members)), gen.Member('dunder', name=rng.choice(["str", "lenn", "hash", "itre", "call"]), args=[]))
-    text = gen.layout(rng, gen.lexemes(m), rng.choice(['space', 'lines', 'comments']))
+    lx = gen.lexemes(m)
+    if kind == "static-const":
+        i = next(k for k, t in enumerate(lx) if t[1] == "StaticK9")
+        j = next(k for k in range(i, len(lx)) if lx[k][1] == ";")
+        lx = lx[:j] + [("word", "const")] + lx[j:]
+    text = gen.layout(rng, lx, rng.choice(['space', 'lines', 'comments']))
     res.update(kind=kind, text=text)
     import props.c01 as c01
     tree, err = impl_parse(text)
     model = c01.model_parse_dump(text)
     res["impl_accepts"], res["model_accepts"] = tree is not None, not model.startswith("ERR")
+    if kind == "static-const":
+        if tree is not None:
+            res["bad"] = dict(kind="spec", what="input accepted although it contains a token no declaration can hold (`const` after a static member function): "
+                                                "the token is silently dropped", input=text, corruption=kind)
+        elif not model.startswith("ERR"):
+            res["bad"] = dict(kind="model", what="model accepts a `const` after a static member function", input=text)
+        return res
     if kind != "unknown-dunder":
         if tree is not None:
             res["bad"] = dict(kind="spec", what="input accepted although it breaks a validity rule of the dialect (%s)" % kind,
@@ -199,6 +216,39 @@ def script_case(idx, payload):
         shutil.rmtree(d, ignore_errors=True)
 
 
+BYTE_INPUTS = [b'class A { A(); void order(string what = "caf\xe9", int cups = 1) const; };\n',
+               b'#include <demo/Caf\xe9.h>\nclass A { A(); };\n',
+               b'class A { A(); };  // caf\xe9\n',
+               b'class A { A(); char c = \'\xe9\'; };\n']
+
+
+def bytes_case(idx, payload):
+    """an interface file that is not valid UTF-8 (a Latin-1 byte inside a default value, an include path, a comment):
+    each script must fail and leave the directory as it was, or succeed — never fail after clobbering an output"""
+    raw = BYTE_INPUTS[idx % len(BYTE_INPUTS)]
+    name, argv, sentinels = SCRIPTS[(idx // len(BYTE_INPUTS)) % len(SCRIPTS)]
+    d = tempfile.mkdtemp(prefix="verif_c07b_")
+    try:
+        open(os.path.join(d, "src.i"), "wb").write(raw)
+        tpl = os.path.join(REPO, "tests", "pybind_wrapper.tpl")
+        for s_ in sentinels:
+            p_ = os.path.join(d, s_)
+            os.makedirs(os.path.dirname(p_), exist_ok=True)
+            open(p_, "w").write("// sentinel: a previous good output\n")
+        before = snapshot(d)
+        cmd = [sys.executable] + [os.path.join(REPO, a) if a.startswith("scripts/") else (tpl if a == "TPL" else ("src.i" if a == "SRC" else a))
+                                  for a in argv]
+        r = subprocess.run(cmd, cwd=d, capture_output=True, text=True, timeout=60, env=dict(os.environ, PYTHONPATH=REPO))
+        after = snapshot(d)
+        bad = None
+        if r.returncode != 0 and before != after:
+            ch = sorted(set(before) ^ set(after)) + [k for k in before if k in after and before[k] != after[k]]
+            bad = "a failing run created or modified output files: %s" % ch[:5]
+        return dict(idx=idx, script=name, sentinel=True, text=repr(raw), bad=bad, exit=r.returncode)
+    finally:
+        shutil.rmtree(d, ignore_errors=True)
+
+
 def run(ctx, n, n_scripts, off=0, collect=True):
     first = None
     rejected = []
@@ -227,8 +277,28 @@ def run(ctx, n, n_scripts, off=0, collect=True):
                 ctx.disagree(b.pop("what"), **b)
         elif collect:
             ctx.traces_validated += 1
+    # several interface files given together: everything that is accepted must be used (the files live in disjoint namespaces)
+    import props.c05 as c05
+    for r in fw.run_cases(c05.multifile_case, [(ctx.seed + off + 9, None)] * max(10, n // 12)):
+        if "crash" in r:
+            raise RuntimeError(r["crash"])
+        if collect:
+            ctx.case("multifile" + r["text"], nontrivial=r["ran"], sample=None)
+            ctx.count("multifile_lists" if r["ran"] else "multifile_rejected")
+        if r["bad"]:
+            v = dict(what="a list of interface files is accepted but not fully used: " + r["bad"], files=r["text"].split("\x1e"))
+            first = first or v
+            if collect:
+                ctx.spec_fail(v["what"], files=v["files"])
+        elif collect and r["ran"]:
+            ctx.traces_validated += 1
+    script_results = []
+    if n_scripts:
+        script_results += fw.run_cases(bytes_case, [(ctx.seed, None)] * (len(BYTE_INPUTS) * len(SCRIPTS)))
     if rejected and n_scripts:
-        for r in fw.run_cases(script_case, [(ctx.seed, rejected)] * n_scripts):
+        script_results += fw.run_cases(script_case, [(ctx.seed, rejected)] * n_scripts)
+    if script_results:
+        for r in script_results:
             if "crash" in r:
                 raise RuntimeError(r["crash"])
             if collect:
